@@ -342,17 +342,25 @@ Definition stale_close_step (guarded : bool) (id : N) (s : mux_st) : mux_st * re
   | None => (s, RNoConn)
   end.
 
-(* the trunk.Write calls of one mux.write: header, payload, header, payload, … *)
-Definition write_calls (fs : list frame) : list N := flat_map (fun f => [8; lenN (snd f)]) fs.
-(* a trunk that accepts only k more bytes: the n returned by the failing Write call *)
-Fixpoint n_of_failing_call (k : N) (calls : list N) : N :=
-  match calls with
-  | [] => 0
-  | c :: r => if c <=? k then n_of_failing_call (k - c) r else k
+(* mux.write on a trunk that accepts only k more bytes.  Its trunk.Write calls are header (8 bytes), payload,
+   header, payload, …; the call that crosses the budget returns (n, error) with the n bytes that still went out.
+       header  fails:  if n != 0 { setError; Close }
+       payload fails:  if n != 0 || size != 0 { setError; Close }     (the header is on the trunk already)
+   [pf] says whether the source has the second disjunct (MuxConsts.payload_failure_fatal_after_header, read from
+   mux.go on every run); without it a payload write that wrote nothing left the Mux open.
+   cut_fatal pf k fs: does the failure close the Mux?  (fs = the frames of the Write, lenN (frames_bytes fs) > k) *)
+Fixpoint cut_fatal (pf : bool) (k : N) (fs : list frame) : bool :=
+  match fs with
+  | [] => false
+  | f :: r =>
+      if k <? 8 then negb (k =? 0)                                      (* the header call fails, n = k *)
+      else let k' := k - 8 in
+           if lenN (snd f) <=? k' then cut_fatal pf (k' - lenN (snd f)) r
+           else negb (k' =? 0) || pf                                    (* the payload call fails, n = k' < size *)
   end.
 
 (* conn.Write, optionally on a trunk that fails after [k] more bytes (cut = Some k) *)
-Definition write_step (mp id : N) (buf : bytes) (cut : option N) (s : mux_st) : mux_st * result :=
+Definition write_step_pf (pf : bool) (mp id : N) (buf : bytes) (cut : option N) (s : mux_st) : mux_st * result :=
   match find_conn id (m_conns s) with
   | None => (s, RNoConn)
   | Some c =>
@@ -367,10 +375,16 @@ Definition write_step (mp id : N) (buf : bytes) (cut : option N) (s : mux_st) : 
             if lenN bs <=? k then (set_tx (m_tx s ++ bs) false s, ROk)
             else
               let s1 := set_tx (m_tx s ++ fst (splitN k bs)) true s in
-              if n_of_failing_call k (write_calls fs) =? 0 then (s1, RErr EErr)
-              else (do_close (latch EErr s1), RErr EErr)
+              if cut_fatal pf k fs then (do_close (latch EErr s1), RErr EErr)
+              else (s1, RErr EErr)
         end
   end.
+Definition write_step := write_step_pf payload_failure_fatal_after_header.
+
+(* the failure of the trunk was transient (an expired write deadline, the peer drains again): the trunk takes
+   bytes again — unless the Mux has closed it *)
+Definition trunk_up_step (s : mux_st) : mux_st :=
+  if m_closed s then s else set_tx (m_tx s) false s.
 
 Definition conn_close_step (id : N) (s : mux_st) : mux_st :=
   set_conns (upd_conn id c_unmap (m_conns s)) s.
@@ -385,6 +399,7 @@ Inductive event :=
 | EvClose
 | EvConnClose (id : N)
 | EvTrunkDown      (* the peer closed the trunk: every later trunk.Write fails with n = 0 *)
+| EvTrunkUp        (* a failing trunk works again (transient failure) *)
 | EvTrunkFail.     (* the reader's trunk.Read fails with an error other than end-of-file *)
 
 Definition step_mp (mp : N) (s : mux_st) (e : event) : mux_st * result :=
@@ -398,6 +413,7 @@ Definition step_mp (mp : N) (s : mux_st) (e : event) : mux_st * result :=
   | EvClose => (do_close s, ROk)
   | EvConnClose id => (conn_close_step id s, ROk)
   | EvTrunkDown => (set_tx (m_tx s) true s, ROk)
+  | EvTrunkUp => (trunk_up_step s, ROk)
   | EvTrunkFail => (reader_fail_step s, ROk)
   end.
 
@@ -413,18 +429,19 @@ Definition step := step_mp max_payload_size.
 Definition run := run_mp max_payload_size.
 
 (* the same machine with the switches read from the source given explicitly (for the refuted variants) *)
-Definition step_var (closes guarded : bool) (mp : N) (s : mux_st) (e : event) : mux_st * result :=
+Definition step_var (closes guarded pfatal : bool) (mp : N) (s : mux_st) (e : event) : mux_st * result :=
   match e with
   | EvOpen id => open_step closes id s
   | EvStaleClose id => stale_close_step guarded id s
+  | EvWrite id buf cut => write_step_pf pfatal mp id buf cut s
   | _ => step_mp mp s e
   end.
-Fixpoint run_var (closes guarded : bool) (mp : N) (s : mux_st) (evs : list event) : mux_st * list (event * result) :=
+Fixpoint run_var (closes guarded pfatal : bool) (mp : N) (s : mux_st) (evs : list event) : mux_st * list (event * result) :=
   match evs with
   | [] => (s, [])
   | e :: r =>
-      let (s1, o) := step_var closes guarded mp s e in
-      let (s2, tr) := run_var closes guarded mp s1 r in
+      let (s1, o) := step_var closes guarded pfatal mp s e in
+      let (s2, tr) := run_var closes guarded pfatal mp s1 r in
       (s2, (e, o) :: tr)
   end.
 
